@@ -1,1 +1,5 @@
-// placeholder: /verif/check overwrites this file in its scratch copy of the crate.
+use crate::*;
+#[kani::proof] #[kani::unwind(20)]
+pub fn c17_ku() { c17::key_usage_flags(); }
+#[kani::proof] #[kani::unwind(20)]
+pub fn c17_ip4() { c17::ip_octets::<4>(); }
